@@ -398,9 +398,9 @@ m("C01", "define-after-body", C,
             yield from self.visit(assignment)
 ''')
 m("C01", "attribute-order-dependent-loop", ZP,
-  '''            if prefix == TAL or prefix == METAL:
+  '''                    continue
                 ns[prefix, attr] = decode_htmlentities(encoded)''',
-  '''            if prefix == TAL or prefix == METAL:
+  '''                    continue
                 ns[prefix, attr] = decode_htmlentities(encoded)
                 self._order = getattr(self, "_order", [])
                 self._order.append(attr)''')
@@ -2307,3 +2307,14 @@ m("C11", "undefined-prefix-bare-keyerror", "parser.py",
 m("C11", "unknown-expression-type-plain-token", "tales.py",
   "            token = expression[m.start(1):m.end(1)]\n",
   "            token = prefix\n")
+
+for _p in ("C07", "C11"):
+    m(_p, "multipart-statements-decoded-before-split", ZP,
+      '''                if prefix == TAL and attr in tal.MULTIPART:
+                    # split first (as written: ``;`` ends ``&amp;``),
+                    # the parts are decoded by the statement parser
+                    continue
+''', "")
+m("C07", "attributes-left-out-of-multipart", "tal.py",
+  'MULTIPART = frozenset(["define", "repeat", "attributes"])',
+  'MULTIPART = frozenset(["define", "repeat"])')
